@@ -172,6 +172,7 @@ def run(ctx):
         return
     for k in range(ctx.n(60, 500)):
         case = c12.gen(ctx)
+        case['maxlag'], case['then_maxlag'] = None, 'keep'     # the symmetry relations are stated without a maximum lag
         if isinstance(case['bandwidth'], str):
             case['bandwidth'] = float(np.percentile(__import__('scipy.spatial.distance', fromlist=['pdist']).pdist(
                 np.array(case['coords'])), int(case['bandwidth'][1:])))
